@@ -1,4 +1,5 @@
 -- GENERATED. Root of the regenerated fact tables.
+import MpsGen.Alg
 import MpsGen.Hash
 import MpsGen.Protocols
 import MpsGen.Session
